@@ -1,5 +1,5 @@
 (* C13/Model.v — Gallina model of pgdump/sql.go and pgdump/csv.go (worktree verif-C13, after the
-   fix: commits for D44 D45 D46 D47 D39 D48).  Go strings are [bytes].  No proofs here. *)
+   fix: commits for D44 D45 D46 D47 D39 D48, and verif-C13b: lone empty CSV field written as "").  Go strings are [bytes].  No proofs here. *)
 From Coq Require Import Strings.String.
 Require Import PG.Base.Bytes PG.Base.Value PG.C13.Lib.
 Import List ListNotations.
@@ -167,6 +167,14 @@ Definition fieldNeedsQuotes (f : bytes) : bool :=
 Definition csv_field (f : bytes) : bytes :=
   if fieldNeedsQuotes f then """"%byte :: double_char """"%byte f ++ [""""%byte] else f.
 Definition csv_record (r : list bytes) : bytes := join (B ",") (map csv_field r) ++ [x0a].
+(* csv.go writeCSVRecord (fix: lone empty field): a record that consists of exactly one empty field
+   is written as the two characters "" and the line end (csv.Writer would write an empty line, which
+   standard readers skip); every other record goes through csv.Writer.Write.  The Flush before the
+   direct write keeps the output in order, so the text is the concatenation. *)
+Definition lone_empty (r : list bytes) : bool :=
+  match r with [f] => is_nil f | _ => false end.
+Definition writeCSVRecord (r : list bytes) : bytes :=
+  if lone_empty r then [""""%byte; """"%byte; x0a] else csv_record r.
 
 Section WithOracles.
   (* fmt.Sprintf("%v", float64/float32) given the IEEE bits, and encoding/json.Marshal: not logic *)
@@ -273,8 +281,8 @@ Section WithOracles.
   Definition TableToCSV (t : table) : bytes :=
     match t_cols t with
     | [] => []
-    | _ => csv_record (map c_name (t_cols t))
-           ++ concat (map (fun r => csv_record (map (csv_cell r) (t_cols t))) (t_rows t))
+    | _ => writeCSVRecord (map c_name (t_cols t))
+           ++ concat (map (fun r => writeCSVRecord (map (csv_cell r) (t_cols t))) (t_rows t))
     end.
   (* DatabaseDump.ToCSV *)
   Definition csv_section (dbname : bytes) (t : table) : bytes :=
